@@ -92,6 +92,15 @@ tuples built by a comprehension is read as a loop over the comprehension's sourc
 attributes the rendering reads (`check_memo`); the flat/sectioned decision counting only declared / filtered sections; a
 child-id -> parent-id map built from the root and its direct children only.
 
+Round 11: the state slot is evaluated case by case (`value_cases`): conditional expressions whose test is itself a conditional
+text (`tag + ',' if tag else ''` with `tag = 'milestone' if t.milestone else ..`), `+`, f-strings and `and` / `or` over constant
+texts are folded per feasible combination of the atoms (contradictory combinations are dropped, `a and b` short-circuits), so a
+helper returning the bare tag with the comma appended by the caller is read like the original.  A task name passing
+`re.sub(P, R, name)` / `re.compile(P).sub(R, name)` with constant P, R is a sanitiser step: accepted when P is `:` itself (also
+followed by optional pieces) or one character class containing it; otherwise the constant chain is applied to probe names and a
+name that keeps its `:` refutes (context-dependent patterns such as `:(?!\\d)`), no surviving probe -> undecided.  A strftime
+format chosen by a conditional expression is checked alternative by alternative (a date-only alternative is refuted).
+
 Engine limitations worked around here (helpers below, nothing under sa/ was changed): string-building normalisation (`parts`),
 inlining of multi-statement single-return helpers (`deep`), path enumeration with event counts (`paths`, DESIGN 3.7 is not in
 sa/), structural loop nesting (`loop_chains`), accumulator recognition (`Acc`), a propositional evaluator for branch conditions,
@@ -2417,7 +2426,7 @@ def line_roles(ctx, f: Func, ps):
         if isinstance(v, ast.Call) and helper_of(ctx, f, v) is not None and len(v.args) == 1 and not v.keywords:
             roles.append(('state', v.args[0], v))
             continue
-        if isinstance(v, ast.IfExp) and _mentions(v, ('milestone',)):
+        if isinstance(v, (ast.IfExp, ast.BoolOp)) and _mentions(v, ('milestone',)):
             roles.append(('state', None, v))
             continue
         roles.append(('other', v, None))
@@ -2795,6 +2804,14 @@ def _truth_cases(test: ast.AST, conds):
         return [(cs, not v) for cs, v in _truth_cases(test.operand, conds)]
     if isinstance(test, ast.Constant):
         return [(list(conds), bool(test.value))]
+    if isinstance(test, ast.BoolOp):
+        # short-circuit evaluation: `a and b` is decided by a when a is false, otherwise by the rest
+        stop = isinstance(test.op, ast.Or)
+        rest = test.values[1] if len(test.values) == 2 else ast.BoolOp(op=test.op, values=test.values[1:])
+        out = []
+        for cs, v in _truth_cases(test.values[0], conds):
+            out += [(cs, v)] if v == stop else _truth_cases(rest, cs)
+        return out
     valued, cmp_ = None, None
     if isinstance(test, (ast.IfExp, ast.JoinedStr)) or (isinstance(test, ast.BinOp) and isinstance(test.op, ast.Add)):
         valued = test
@@ -3011,6 +3028,8 @@ def gantt_formats(ctx, o):
                 o.undecided(fn, node, val, "cannot find the task whose milestone attribute decides the flag")
                 okc = False
                 continue
+            if 'milestone' in [x.strip() for x in s.split(',')]:
+                seen_ms = True
             if s.strip() and not s.strip().endswith(','):
                 o.refute(fn, node, f"state {s!r}", f"state text {s!r} does not end with `,`: it merges with the task id")
                 okc = False
